@@ -588,6 +588,109 @@ add('c02-benign-ranks-rescaled', 'C02', 'benign', [(LOOK, """        return 2
     return 0""")])
 add('c02-benign-div-guard-rewritten', 'C02', 'benign', [(OPS, """    '/': lambda x, y: (x / y) if y else Error.errors['#DIV/0!'],""", """    '/': lambda x, y: Error.errors['#DIV/0!'] if y == 0 else x / y,""")])
 
+# ---------------------------------------------------------------- C19
+add('c19-vlookup-own-core', 'C19', 'break', [(LOOK, """FUNCTIONS['VLOOKUP'] = wrap_ufunc(
+    xlookup, input_parser=lambda *a: a,""", """def xvlookup(*a):
+    return xlookup(*a)
+
+
+FUNCTIONS['VLOOKUP'] = wrap_ufunc(
+    xvlookup, input_parser=lambda *a: a,""")], expect='C19.core')
+add('c19-lookup-index-off-by-one', 'C19', 'break', [(LOOK, """        r = np.asarray(result_vec[r - 1], object).ravel()[0]""", """        r = np.asarray(result_vec[r], object).ravel()[0]""")], expect='C19.core')
+add('c19-vlookup-no-transpose', 'C19', 'break', [(LOOK, """    args_parser=functools.partial(args_parser_hlookup, transpose=True),""", """    args_parser=args_parser_hlookup,""")], expect='C19.core')
+add('c19-hlookup-transposes', 'C19', 'break', [(LOOK, """FUNCTIONS['HLOOKUP'] = wrap_ufunc(
+    xlookup, input_parser=lambda *a: a,
+    args_parser=args_parser_hlookup,""", """FUNCTIONS['HLOOKUP'] = wrap_ufunc(
+    xlookup, input_parser=lambda *a: a,
+    args_parser=functools.partial(args_parser_hlookup, transpose=True),""")], expect='C19.core')
+add('c19-sumif-counts', 'C19', 'break', [(MATH, """FUNCTIONS['SUMIF'] = wrap_func(functools.partial(xfilter, xsum))""", """FUNCTIONS['SUMIF'] = wrap_func(functools.partial(xfilter, len))""")], expect='C19.core')
+add('c19-criterion-type-guard-dropped', 'C19', 'break', [(F, """        return _get_type_id(value) == type_id and operator(value, condition)""", """        return operator(value, condition)""")], expect='C19.typed')
+add('c19-criterion-compare-first', 'C19', 'break', [(F, """        return _get_type_id(value) == type_id and operator(value, condition)""", """        return operator(value, condition) and _get_type_id(value) == type_id""")], expect='C19.typed')
+add('c19-match-no-type-filter', 'C19', 'break', [(LOOK, """    index = lookup_array_index[b]
+    array = lookup_array[b]
+""", """    index = lookup_array_index
+    array = lookup_array
+""")], expect='C19.typed')
+add('c19-match-ascending-strict', 'C19', 'break', [(LOOK, """            if x <= val:
+                r[0] = j
+                return x == val and j > 1""", """            if x < val:
+                r[0] = j
+                return x == val and j > 1""")], expect='C19.typed')
+add('c19-match-descending-nonstrict', 'C19', 'break', [(LOOK, """            if x < val:
+                return True
+            r[0] = j""", """            if x <= val:
+                return True
+            r[0] = j""")], expect='C19.typed')
+add('c19-match-mode-ge', 'C19', 'break', [(LOOK, """    if match_type > 0:
+        def check""", """    if match_type >= 0:
+        def check""")], expect='C19.typed')
+add('c19-benign-compare-flipped', 'C19', 'benign', [(LOOK, """            if x <= val:
+                r[0] = j
+                return x == val and j > 1""", """            if val >= x:
+                r[0] = j
+                return x == val and j > 1""")])
+add('c19-benign-rename-mask', 'C19', 'benign', [(LOOK, """    b = lookup_value_type == lookup_array_type
+    index = lookup_array_index[b]
+    array = lookup_array[b]
+""", """    same = lookup_value_type == lookup_array_type
+    index = lookup_array_index[same]
+    array = lookup_array[same]
+""")])
+
+# ---------------------------------------------------------------- C20
+ENG = 'formulas/functions/eng.py'
+add('c20-mask-octal-wrong', 'C20', 'break', [(ENG, """_xmask = {2: 1 << 9, 8: 1 << 29, 16: 1 << 39}""", """_xmask = {2: 1 << 9, 8: 1 << 30, 16: 1 << 39}""")], expect='C20.mask')
+add('c20-xfunc-swapped', 'C20', 'break', [(ENG, """_xfunc = {2: bin, 8: oct, 16: hex}""", """_xfunc = {2: bin, 8: hex, 16: oct}""")], expect='C20.mask')
+add('c20-oct2dec-base-ten', 'C20', 'break', [(ENG, """        function_id='OCT2DEC',
+        function=functools.partial(_x2dec, base=8),""", """        function_id='OCT2DEC',
+        function=functools.partial(_x2dec, base=10),""")], expect='C20.mask')
+add('c20-dec2bin-writes-oct-node', 'C20', 'break', [(ENG, """        function=functools.partial(_dec2x, base=2),
+        inputs=['DEC', 'places'],
+        outputs=['BIN']""", """        function=functools.partial(_dec2x, base=2),
+        inputs=['DEC', 'places'],
+        outputs=['OCT']""")], expect='C20.mask')
+add('c20-x2dec-default-base', 'C20', 'break', [(ENG, """def _x2dec(x, base=16):""", """def _x2dec(x, base=8):""")], expect='C20.mask')
+add('c20-dec2x-range-inclusive', 'C20', 'break', [(ENG, """    if -y <= x < y:""", """    if -y <= x <= y:""")], expect='C20.mask')
+add('c20-permutations-missing-dec', 'C20', 'break', [(ENG, """itertools.permutations(['HEX', 'OCT', 'BIN', 'DEC'], 2)""", """itertools.permutations(['HEX', 'OCT', 'BIN'], 2)""")], expect='C20.mask', may_error=True)
+add('c20-roman-table-edit', 'C20', 'break', [(MATH, """def _xroman(form):
+    form = int(form + 1)
+    num, let = (1000, 500, 100, 50, 10, 5, 1), 'MDCLXVI'""", """def _xroman(form):
+    form = int(form + 1)
+    num, let = (1000, 500, 100, 50, 10, 5, 1), 'MDCLVXI'""")], expect='C20.roman')
+add('c20-arabic-values-edit', 'C20', 'break', [(MATH, """def xarabic(text):
+    num = (1000, 500, 100, 50, 10, 5, 1)""", """def xarabic(text):
+    num = (1000, 500, 100, 50, 10, 4, 1)""")], expect='C20.roman')
+add('c20-roman-domain-4000', 'C20', 'break', [(MATH, """    if not (0 <= num < 4000 and 0 <= form <= 4):""", """    if not (0 <= num <= 4000 and 0 <= form <= 4):""")], expect='C20.roman')
+add('c20-serial-weekday-off-by-one', 'C20', 'break', [(DATE, """def xweekday(serial_number, n=1):
+    n, serial_number, zero = int(n), int(serial_number), 7
+    if not (0 <= serial_number <= 2958465):""", """def xweekday(serial_number, n=1):
+    n, serial_number, zero = int(n), int(serial_number), 7
+    if not (0 <= serial_number <= 2958466):""")], expect='C20.serial')
+add('c20-int2date-upper-exclusive', 'C20', 'break', [(DATE, """    if 60 < serial_number <= 2958465:""", """    if 60 < serial_number < 2958465:""")], expect='C20.serial')
+add('c20-date-zero-shifted', 'C20', 'break', [(DATE, """DATE_ZERO = datetime.datetime(1899, 12, 31)""", """DATE_ZERO = datetime.datetime(1899, 12, 30)""")], expect='C20.serial')
+add('c20-leap-pivot-61', 'C20', 'break', [(DATE, """    elif serial_number == 60:
+        return 1900, 2, 29""", """    elif serial_number == 61:
+        return 1900, 2, 29""")], expect='C20.serial')
+add('c20-xdate-no-shift', 'C20', 'break', [(DATE, """    return (datetime.datetime(*d) - DATE_ZERO).days + int(d >= (1900, 3, 1))""", """    return (datetime.datetime(*d) - DATE_ZERO).days""")], expect='C20.serial')
+add('c20-weekday-mode-18', 'C20', 'break', [(DATE, """    elif 11 <= n <= 17:
+        n = n - 10
+    else:
+        return Error.errors['#NUM!']
+    return int(""", """    elif 11 <= n <= 18:
+        n = n - 10
+    else:
+        return Error.errors['#NUM!']
+    return int(""")], expect='C20.weekday')
+add('c20-weekday-mode3-zero-7', 'C20', 'break', [(DATE, """    elif n == 3:
+        n, zero = 2, 0""", """    elif n == 3:
+        n, zero = 2, 7""")], expect='C20.weekday')
+add('c20-weekday-mode11-offset', 'C20', 'break', [(DATE, """    elif 11 <= n <= 17:
+        n = n - 10""", """    elif 11 <= n <= 17:
+        n = n - 11""")], expect='C20.weekday')
+add('c20-benign-mask-literals', 'C20', 'benign', [(ENG, """_xmask = {2: 1 << 9, 8: 1 << 29, 16: 1 << 39}""", """_xmask = {2: 512, 8: 8 ** 10 // 2, 16: 549755813888}""")])
+add('c20-benign-dict-reordered', 'C20', 'benign', [(ENG, """_xfunc = {2: bin, 8: oct, 16: hex}""", """_xfunc = {16: hex, 2: bin, 8: oct}""")])
+add('c20-benign-exclusive-bound', 'C20', 'benign', [(DATE, """    if 60 < serial_number <= 2958465:""", """    if 60 < serial_number < 2958466:""")], may_error=True)
+
 if __name__ == '__main__':
     here = os.path.dirname(os.path.abspath(__file__))
     ids = [v['id'] for v in V]
